@@ -6,6 +6,9 @@ V = os.path.dirname(os.path.dirname(os.path.abspath(__file__)))
 # id -> (technique, level text, level note, design ref)
 PROOF_NOTE = "Lean 4.33 kernel; axioms propext/Quot.sound/Classical.choice only (audited per run); translator go/extract and the layout interpreter Model/Layout.lean validated against the real IEncode/IDecode by the correspondence run; Go runtime/stdlib modelled (DESIGN.md 2.6)."
 CLAIMED = {
+ "C02": ("Lean 4: field tables of the five protocol documents transcribed by hand (Spec/Tables.lean, from text extracts of doc/*.pdf) with one reference serialiser; theorem that every regenerated layout is its table (`decide` per run) and therefore IEncode = reference serialisation for every fitting field assignment; hand-computed CMPP 2.0 length formulas linearised with Go's fixed-width arithmetic explicit and proved equal to the image size (refuses products that can wrap); header offsets and length prefix as theorems about the reference serialiser; decode of the reference image via the round-trip theorem; three-way correspondence IEncode / independent Go table-driven serialiser / Spec.wire over the count x length grid",
+         "Unbounded proof on the model for every PDU type and every fitting field assignment, including every destination count and body length. What is trusted: the transcription of the documents (reviewable: spec-src/*.txt beside Spec/Tables.lean; SMPP responses without body on non-zero status are outside the quantifier) and the binding column. The implementation is compared octet for octet with a second, independent serialiser in Go over the full 256x256 grid (thorough) or its diagonal, edges and 3000 random cells (quick) for every PDU with a list and/or body, and IDecode is run on reference images.",
+         PROOF_NOTE + " Command ids of the documents compared with GetCommand() on the implementation.", "DESIGN.md 4/C02"),
  "C03": ("Lean 4 theorems on the layout interpreter over every regenerated PDU decoder and every octet string: the only outcomes are a PDU or an error (no panic, no unmodelled statement; termination by the kernel, optional-parameter loops by input-bounded fuel), allocator requests <= input length + 65,790 (reader never requests unseen octets; count/length fields bounded by their declared width), success implies the fixed-width mandatory part was present; correspondence plus in-process execution of all 58 decoders, 5 dispatchers, ~30 auxiliary parsers and both frame extractors on structured malformed images with panic / deadline / runtime.MemStats capture",
          "Unbounded proof on the model for all byte strings and all PDU types (per-run `decide` over the regenerated layouts). The Go side of 'no panic / no hang / bounded allocation' is observed, not proved: every truncation point, length/count substitutions, inconsistent and hostile declared lengths, garbage and optional tails for each PDU type; auxiliary parsers on all strings of <= 2 octets, branch alphabets to length 4 (6 thorough) and random strings. The truncation theorem covers the fixed-width mandatory minimum; rejection of every proper prefix of the variable mandatory part is checked on the implementation. Coverage-guided fuzzing is not used (structure-directed enumeration instead).",
          PROOF_NOTE + " Allocation is modelled as requested octets/slots; Go runtime allocation (TotalAlloc) is measured against 64*len+256KiB.", "DESIGN.md 4/C03"),
